@@ -60,6 +60,10 @@ class Ctx:
         self.rule_docs: dict[str, str] = {}
         self.floors: list[tuple[str, int, int]] = []
         self.not_decided: list[str] = []
+        #: (rule, regular expression on the construct, reason): obligations whose failure is a definite contradiction of the
+        #: property, declared by the rule set of the property (module attribute POSITIVE).  Every other failure is "not
+        #: recognised" (exit 2): the rule saw something it does not understand and does not accuse.
+        self.positive_table: list[tuple[str, str, str]] = []
 
     def rule(self, rule: str, doc: str) -> None:
         self.rule_docs[rule] = norm_text(doc)
@@ -69,7 +73,9 @@ class Ctx:
         ok=None: the construct does not have a shape the rule understands (see shape()).
         positive=True: a failure is a definite contradiction of the property even though its message talks about change."""
         file, line = _where(where)
-        if ok is False and not positive and (SHAPE_WORDING.search(message) or os.environ.get('VERIF_STRICT_POSITIVE')):
+        if ok is False and not positive and not SHAPE_WORDING.search(message):
+            positive = any(r == rule and re.search(pat, construct) for r, pat, _why in self.positive_table)
+        if ok is False and not positive and (SHAPE_WORDING.search(message) or not os.environ.get('VERIF_LENIENT')):
             # the rule only knows that the construct does not look as expected ("... changed", "... no longer ..."): it has not
             # identified anything that contradicts the property, so this is "not recognised", never an accusation
             ok = None
